@@ -11,7 +11,7 @@ from ..strategies import finite
 from . import _img as I
 
 RULE = ("A history = constructor arguments + a generated list of operations (birth_range / pers_range / pixel_size assignment, fit on one "
-        "diagram or a list, skew either way) interpreted against the real object; the invariant is evaluated after construction and after "
+        "diagram or a list, skew either way, and two STATE-DEPENDENT operations resolved at run time: pixel_size := current extent / k, range := lo + m * current pixel_size) interpreted against the real object; the invariant is evaluated after construction and after "
         "EVERY operation, the post-condition after the operation it concerns. Values come from a table of decimals whose quotients are "
         "inexact in binary (0.1, 0.2, 0.3, 0.7, 1/3, 0.05, 0.9, 1.1, 3.3 ... times small integers) and from arbitrary positive floats; "
         "resolution kept <= 64 per axis (cost bound only). The history is one shrinkable value and the replay file is the history itself.")
@@ -79,7 +79,16 @@ def history(draw, max_ops=8):
             "probe": [draw(finite(0.0, 0.999)), draw(finite(0.0, 0.999))]}
     n = draw(st.integers(1, max_ops))
     for _ in range(n):
-        op = draw(st.sampled_from(["birth_range", "pers_range", "pixel", "fit"]))
+        op = draw(st.sampled_from(["birth_range", "pers_range", "pixel", "fit", "pixel_div", "range_pixels"]))
+        if op == "pixel_div":
+            # state-dependent argument, resolved by the interpreter: pixel_size := (current width or height) / k
+            case["ops"].append({"op": "pixel_div", "axis": draw(st.sampled_from(["birth", "pers"])), "k": draw(st.integers(1, 12))})
+            continue
+        if op == "range_pixels":
+            # state-dependent: range := (lo, lo + m * current pixel_size), lo from the current range or a decimal
+            case["ops"].append({"op": "range_pixels", "axis": draw(st.sampled_from(["birth", "pers"])), "m": draw(st.integers(1, 14)),
+                                "lo": draw(st.sampled_from(["keep", 0.0, 0.1, -0.3, 1.0]))})
+            continue
         if op == "pixel":
             s2 = draw(pixel())
             # keep the resolution bounded (cost only): extents were built for the old pixel size
@@ -148,7 +157,20 @@ def run_history(case, ctx):
     inexact = _inexact(init["birth_range"], s) or _inexact(init["pers_range"], s)
     kinds = set()
     for n, op in enumerate(case["ops"]):
-        step = "op %d (%s)" % (n, op["op"])
+        if op["op"] == "pixel_div":
+            ext = imgr.width if op["axis"] == "birth" else imgr.height
+            if not op["k"] >= 1:
+                ctx.skip("malformed op (shrinker)")
+            op = {"op": "pixel", "val": float(ext) / op["k"], "via": "pixel_div"}
+        elif op["op"] == "range_pixels":
+            cur = imgr.birth_range if op["axis"] == "birth" else imgr.pers_range
+            lo = float(cur[0]) if op["lo"] == "keep" else float(op["lo"])
+            if not op["m"] >= 1:
+                ctx.skip("malformed op (shrinker)")
+            op = {"op": "birth_range" if op["axis"] == "birth" else "pers_range", "val": [lo, lo + op["m"] * imgr.pixel_size], "via": "range_pixels"}
+        step = "op %d (%s%s)" % (n, op["op"], " via " + op["via"] if "via" in op else "")
+        if "via" in op:
+            kinds.add(op["via"])
         old_b, old_p, old_s = imgr.birth_range, imgr.pers_range, imgr.pixel_size
         kinds.add(op["op"])
         if op["op"] == "birth_range":
@@ -239,6 +261,9 @@ def VALID_DEFAULT(case):
                     return False
             elif op["op"] == "pixel":
                 if not op["val"] > 0:
+                    return False
+            elif op["op"] in ("pixel_div", "range_pixels"):
+                if op["axis"] not in ("birth", "pers"):
                     return False
             elif op["op"] == "fit":
                 if not op["dgms"] or any(len(d) < 1 or any(len(q) != 2 or q[1] < q[0] for q in d) for d in op["dgms"]):
